@@ -194,6 +194,7 @@ func checkTopology(m *Model, events []sched.Event, evicted map[string]bool, cycl
 	}
 	// final placement per pod in this cycle
 	final := map[string]string{}
+	timesPlaced := map[string]int{} // successful binds + nominations of a pod in this cycle
 	finalAction := map[string]string{}
 	groupsTouched := map[string]bool{}
 	for i := range events {
@@ -201,6 +202,7 @@ func checkTopology(m *Model, events []sched.Event, evicted map[string]bool, cycl
 		if (e.Kind == "bind" || e.Kind == "pipeline") && OK(e) {
 			final[e.Key()] = e.Node
 			finalAction[e.Key()] = e.Action
+			timesPlaced[e.Key()]++
 			groupsTouched[e.Group] = true
 		}
 	}
@@ -340,6 +342,16 @@ func checkTopology(m *Model, events []sched.Event, evicted map[string]bool, cycl
 					sig := "within-one-decision:" + placedActions[i]
 					if placedActions[i] != "allocate" && sameAction == 0 {
 						sig = "solver-extends-placed-workload:" + placedActions[i]
+					}
+					moved := false
+					for _, pp := range m.O.Pods {
+						if pp.Name == placedPods[i] && pp.Annotations["pod-group-name"] == gname && timesPlaced[pp.Namespace+"/"+pp.Name] > 1 {
+							moved = true
+						}
+					}
+					if moved {
+						// the pod had already been nominated in this cycle and a later statement evicted and re-nominated it alone
+						sig = "pod-renominated-by-later-statement:" + placedActions[i]
 					}
 					out = append(out, Viol("C04", "topology-domain-split", sig, cycle,
 						"pod group %s (%s) requires one %q domain: pod %s placed by %s on node %s in domain %s but the set (placed %v on %v by %v, active on %v) is in domain %s", gname, c.name, c.tc.RequiredTopologyLevel, placedPods[i], placedActions[i], n, d, placedPods, placedNodes, placedActions, activeNodes, want))
